@@ -770,8 +770,9 @@ def run(ctx: Ctx) -> None:
     if quick:
         # three TLC processes: one C01 shard, one C02 shard with two functions (every family), one C02 shard with three
         # functions (the call-side families; Shard = NShards switches the other universe off)
-        shards = [(s % 48, 48, 16, 16), (48, 48, s % 16, 16), (48, 48, (7 * s) % 256, 256, 3, FAMILIES_N3),
-                  (48, 48, 16, 16, 2, FAMILIES_TUPLE, s % NSHARDS_T, NSHARDS_T)]    # 4th: the tuple-output cases only
+        # (the tuple-output cases, a universe of their own, ride along with the second process)
+        shards = [(s % 48, 48, 16, 16), (48, 48, s % 16, 16, 2, FAMILIES_N2 + FAMILIES_TUPLE, s % NSHARDS_T, NSHARDS_T),
+                  (48, 48, (7 * s) % 256, 256, 3, FAMILIES_N3)]
     else:
         shards = ([((s + 5 * k) % 16, 16, 4, 4) for k in range(2)] + [(16, 16, k, 4) for k in range(4)]   # two C01 shards; all of C02's N=2
                   + [(16, 16, (s + 11 * k) % 64, 64, 3, FAMILIES_N3 + ("illformed_run_func",)) for k in range(2)]   # two shards of C02's N=3
